@@ -51,7 +51,11 @@ class Measurement(object):
     def from_str_list(cls, id_to_run_id: list[RunId], str_list, line_number=None, filename=None):
         invocation = int(str_list[0])
         iteration = int(str_list[1])
-        value = float(str_list[2])
+        if str_list[2] in ("True", "False"):
+            # a criterion with a boolean value, as the ValidationLog adapter reports it
+            value = str_list[2] == "True"
+        else:
+            value = float(str_list[2])
         unit = str_list[3]
         criterion = str_list[4]
         run_id = RunId.from_str_list(id_to_run_id, str_list[5:])
